@@ -167,7 +167,7 @@ def _exc(out, fam, feats, ex, exp=None):
 # pairs
 
 def case_pair(case):
-    depth, sa, sb, variant, dflt = case
+    depth, sa, sb, variant, dflt, extras = case
     ca, cb = ref_content(sa, depth, dflt), ref_content(sb, depth, dflt)
     exp = ca == cb
     feats = spec_feats(sa, depth) | spec_feats(sb, depth)
@@ -192,28 +192,30 @@ def case_pair(case):
     vb = "u" if variant == "u" else "t"
     a, ra, ta = build(sa, depth, va, dflt, 0)
     b, rb, tb = build(sb, depth, vb, dflt, 1)
-    # what is compared: the objects themselves, and for tensors also their roots
+    # what is compared: the objects themselves (two tensors: Tensor.__eq__, which compares the owned roots);
+    # with extras also the owned roots directly, != and the reversed order on the same objects
     pairs = [("eq", a, b)] if variant != "ut" else [("eq", ra, rb)]
-    if variant == "t":
+    if variant == "t" and extras:
         pairs.append(("root-eq", ra, rb))
     s0 = (_snap(ra, ta), _snap(rb, tb))
     for tag, x, y in pairs:
         fam = ("tensor" if isinstance(x, Tensor) else "fiber") + "=="
         try:
-            r1 = x == y
-            r2 = x != y
-            r3 = y == x
+            res = [("eq", x == y, exp)]
+            if extras:
+                res.append(("ne", x != y, not exp))
+                res.append(("eq-reversed", y == x, exp))
         except Exception as ex:
             _exc(out, fam, feats, ex, exp)
             continue
-        for name, r, e in (("eq", r1, exp), ("ne", r2, not exp), ("eq-reversed", r3, exp)):
+        for name, r, e in res:
             if not isinstance(r, bool):
                 out.append((fam, name + "-not-a-bool", feats, e, repr(r)[:60]))
             elif r != e:
                 out.append((fam, "%s-%s" % (name, "true-for-different-content" if r and name != "ne" else
                                             "false-for-equal-content" if name != "ne" else "inconsistent"),
                             feats, e, r))
-        cur.outcome((fam, r1, r2, r3))
+        cur.outcome((fam,) + tuple(repr(r) for _, r, _ in res))
         s1 = (_snap(ra, ta), _snap(rb, tb))
         if s1 != s0:
             for side, u, v, t in (("left", s0[0], s1[0], ta), ("right", s0[1], s1[1], tb)):
@@ -232,11 +234,11 @@ def case_pair(case):
 VARIANTS_ALL = ("u", "t", "ut")
 
 
-def _pairs(u, depth, variants, dflt):
+def _pairs(u, depth, variants, dflt, extras):
     for v in variants:
         for sa in u:
             for sb in u:
-                yield (depth, sa, sb, v, dflt)
+                yield (depth, sa, sb, v, dflt, extras)
 
 
 def shard_pair_f1(acc, shard, nshards, params):
